@@ -1759,6 +1759,78 @@ fn attribute_program(rng: &mut Rng, counter: &mut usize, thorough: bool) -> Opti
     Some(ScopedProgram { src, target, control, sibling, in_scope, how, chain: chain.iter().map(|c| CONTAINERS[*c].0).collect(), cfg, model_req })
 }
 
+/// `#[rustfmt::skip::macros(..)]` on one of three nested items: calls of the named macro before the outermost
+/// item, inside each level before and after the next one, and after the outermost item.  A call is kept as
+/// written iff it lies inside the annotated item (the name reaches inner modules / impls / fns and is gone
+/// after the item: save / restore of visit_item, theorems skipCtx_monotone, skipCtx_siblings).
+struct NestProgram {
+    src: String,
+    /// (position, call text, lies inside the annotated item)
+    calls: Vec<(&'static str, String, bool)>,
+    how: String,
+    list: Vec<String>,
+    name: String,
+    present: bool,
+    cfg: Vec<(String, String)>,
+}
+
+fn names_nesting_program(rng: &mut Rng, counter: &mut usize, thorough: bool) -> NestProgram {
+    // (opening texts of the three levels, which levels are items that visit_item feeds the context with)
+    let shapes: &[([&str; 3], [bool; 3])] = &[
+        (["mod  a1  {", "mod  a2  {", "fn  a3( ) {"], [true, true, true]),
+        (["mod  a1  {", "fn  a2( ) {", "fn  a3( ) {"], [true, true, true]),
+        (["mod  a1  {", "impl  A2 {", "fn  a3( &self ) {"], [true, true, false]),
+        (["fn  a1( ) {", "mod  a2  {", "fn  a3( ) {"], [true, true, true]),
+        (["mod  a1  {", "trait  A2 {", "fn  a3( &self ) {"], [true, true, false]),
+        (["fn  a1( ) {", "fn  a2( ) {", "let  a3=| |  {"], [true, true, false]),
+        (["impl  A1 {", "fn  a2( &self ) {", "fn  a3( ) {"], [true, false, true]),
+        (["mod  a1  {", "mod  a2  {", "mod  a3  {"], [true, true, true]),
+        (["fn  a1( ) {", "impl  A2 {", "fn  a3( &self ) {"], [true, true, false]),
+    ];
+    let (opens, annotatable) = *rng.pick(shapes);
+    let levels: Vec<usize> = (0..3).filter(|l| annotatable[*l]).collect();
+    let k = *rng.pick(&levels); // the annotated level, 0-based
+    let name = rng.pick(&["mac", "html", "my_macro", "println"]).to_string();
+    let others = ["other", "ctrl2", "x"];
+    let mut list: Vec<String> = (0..rng.below(3)).map(|_| rng.pick(&others).to_string()).collect();
+    let present = rng.chance(3, 4);
+    if present {
+        let at = rng.below(list.len() + 1);
+        list.insert(at, name.clone());
+    }
+    let attr = match rng.below(4) {
+        0 => format!("#[rustfmt::skip::macros({})]", list.join(" ,")),
+        1 => format!("#[allow( unused )]\n{}#[rustfmt::skip::macros({})]", junk_indent(rng), list.join(", ")),
+        _ => format!("#[rustfmt::skip::macros({})]", list.join(", ")),
+    };
+    let mut calls = vec![];
+    let mut call = |rng: &mut Rng, pos: &'static str, inside: bool, src: &mut String| {
+        *counter += 1;
+        let t = format!("{}!( 1 ,zq{}x ,  3 )", name, counter);
+        src.push_str(&format!("{}{} ;\n", junk_indent(rng), t));
+        calls.push((pos, t, inside));
+    };
+    let mut src = String::new();
+    call(rng, "before the outermost item", false, &mut src);
+    let positions_a = ["inside level 1, before level 2", "inside level 2, before level 3", "inside level 3"];
+    let positions_b = ["", "inside level 2, after level 3", "inside level 1, after level 2"];
+    for l in 0..3 {
+        if l == k { src.push_str(&format!("{}{}\n", junk_indent(rng), attr)); }
+        src.push_str(&format!("{}{}\n", junk_indent(rng), opens[l]));
+        call(rng, positions_a[l], l >= k, &mut src);
+    }
+    for l in (0..3).rev() {
+        let closer = if opens[l].starts_with("let") { "} ;" } else { "}" };
+        src.push_str(&format!("{}{}\n", junk_indent(rng), closer));
+        if l > 0 { call(rng, positions_b[3 - l], l - 1 >= k, &mut src); }
+    }
+    call(rng, "after the outermost item", false, &mut src);
+    let mut cfg = e2e_config(rng, thorough);
+    cfg.retain(|(k, _)| k != "format_macro_bodies" && k != "format_macro_matchers" && k != "skip_macro_invocations");
+    wide_enough(rng, &mut cfg, thorough);
+    NestProgram { src, calls, how: format!("{:?}, attribute on level {}", opens, k + 1), list, name, present, cfg }
+}
+
 fn part_e2e_scoped(o: &mut Outcome, rng: &mut Rng, thorough: bool) {
     let mut counter = 100000usize;
     let mut progs: Vec<(&'static str, ScopedProgram)> = vec![];
@@ -1810,6 +1882,45 @@ fn part_e2e_scoped(o: &mut Outcome, rng: &mut Rng, thorough: bool) {
             o.direct_evals += 1;
             if count_occ(&out, sib) != 0 || count_occ(&out, &sib.replace("sib", "pre")) != 0 {
                 o.direct_failures.push(json!({"sig": format!("c04:skip::{}-leaks-to-sibling", fam), "what": "a name brought into scope by an item's attribute protects a sibling of that item (the scope must end with the item)", "sibling": sib, "config": cfg_text(&pr.cfg), "src": pr.src, "out": r.out}));
+            }
+        }
+    }
+    // names at three nesting levels
+    let mut nests = vec![];
+    for _ in 0..(if thorough { 20000 } else { 1500 }) {
+        nests.push(names_nesting_program(rng, &mut counter, thorough));
+    }
+    let jobs_n: Vec<Job> = nests.iter().map(|p| Job { src: p.src.clone(), cfg: p.cfg.clone(), file_lines: None }).collect();
+    let res_n = pool::run_jobs(&jobs_n, jobs(), Duration::from_secs(if thorough { 20 } else { 10 }));
+    for (pr, r) in nests.iter().zip(res_n.iter()) {
+        match &r.status {
+            Status::Timeout => { o.count("nest:timeout"); continue; }
+            Status::Ok => {}
+            other => {
+                o.direct_failures.push(json!({"sig": "c04:e2e-run-failed:skip::macros-nesting", "what": format!("the formatter did not finish on a generated program: {:?}", other), "src": pr.src, "config": cfg_text(&pr.cfg)}));
+                continue;
+            }
+        }
+        if r.flags[1] || r.out.is_empty() {
+            o.count("nest:not-parsed");
+            o.sample(json!({"not_parsed": pr.src}));
+            continue;
+        }
+        let out = canon_newlines(&r.out, &pr.cfg);
+        o.count(&format!("nest:{}:present={}", pr.how.rsplit(", ").next().unwrap_or(""), pr.present as u8));
+        for (pos, text, in_item) in &pr.calls {
+            let occ = count_occ(&out, text);
+            o.direct_evals += 1;
+            o.direct_distinct += 1;
+            // the model decides from the position: inside the annotated item the context was extended with the list
+            let req = if *in_item { format!("skip.ctx e:{} {}", names_enc(&pr.list), pr.name) } else { format!("skip.ctx _ {}", pr.name) };
+            o.push("corr", "skip.ctx(real run, nesting)", req, bit(occ == 1), format!("{} - {} [{}]", pr.how, pos, cfg_text(&pr.cfg)), true);
+            let inside = &(*in_item && pr.present);
+            if *inside && occ != 1 {
+                o.direct_failures.push(json!({"sig": "c04:skip::macros-not-honoured:nesting", "what": format!("a call of a macro named by rustfmt::skip::macros on an enclosing item occurs {} times in the output ({}; {})", occ, pr.how, pos), "target": text, "config": cfg_text(&pr.cfg), "src": pr.src, "out": r.out}));
+            }
+            if !*inside && occ != 0 {
+                o.direct_failures.push(json!({"sig": if pos.contains("after") { "c04:skip::macros-leaks-after-the-item" } else { "c04:skip::macros-leaks-outside-the-item" }, "what": format!("a call of the macro OUTSIDE the annotated item was left as written ({}; {}): the name must be in scope inside the item only", pr.how, pos), "target": text, "config": cfg_text(&pr.cfg), "src": pr.src, "out": r.out}));
             }
         }
     }
@@ -2013,6 +2124,71 @@ fn part_files(o: &mut Outcome, rng: &mut Rng, thorough: bool, out: &Path) {
         o.count(&format!("file:optout:{}:{}", mode, if problems.is_empty() { "clean" } else { "reported" }));
         if !problems.is_empty() {
             o.direct_failures.push(json!({"sig": format!("c04:opted-out-file-reported:{}:{}", mode, row.bits10()), "what": problems.join("; "), "row": format!("{:?}", row), "toml": row.toml(), "stdout": r.stdout, "stderr": r.stderr}));
+        }
+    }
+    // 1b. byte-exactness of an opted-out file whatever its encoding details: BOM, CRLF, both, no final
+    //     newline, trailing blank lines and blanks - one opt-out reason at a time, the file itself or a child
+    //     module, in every emit mode (and --backup): the bytes on disk stay, exit 0, nothing is reported
+    {
+        let vary = |text: &str, v: usize| -> String {
+            match v {
+                0 => format!("\u{feff}{}", text),
+                1 => text.replace('\n', "\r\n"),
+                2 => format!("\u{feff}{}", text.replace('\n', "\r\n")),
+                3 => text.trim_end_matches('\n').to_string(),
+                4 => format!("{}\n\n   \n\t", text),
+                _ => text.replace("fn  bad_f", "fn  bad_\u{e9}\u{4e16}"),
+            }
+        };
+        let names = ["bom", "crlf", "bom+crlf", "no-final-newline", "trailing-blank-lines", "non-ascii"];
+        let base = OptOut { inner_skip: false, disable_all: false, ignored: false, generated: false, format_generated: true, stdin: false, skip_children: false, is_main: true, main_ignored: false };
+        let mut reasons: Vec<(&str, OptOut)> = vec![];
+        for is_main in [true, false] {
+            reasons.push(("inner-skip", OptOut { inner_skip: true, is_main, ..base }));
+            reasons.push(("disable-all", OptOut { disable_all: true, is_main, ..base }));
+            reasons.push(("ignored", OptOut { ignored: true, main_ignored: is_main, is_main, ..base }));
+            reasons.push(("generated", OptOut { generated: true, format_generated: false, is_main, ..base }));
+        }
+        reasons.push(("skip-children", OptOut { skip_children: true, is_main: false, ..base }));
+        let modes: Vec<(&str, Vec<&str>)> = vec![("files", vec![]), ("check", vec!["--check"]), ("json", vec!["--emit", "json"]), ("checkstyle", vec!["--emit", "checkstyle"]), ("stdout", vec!["--emit", "stdout"]), ("backup", vec!["--backup"]), ("check-l", vec!["--check", "-l"])];
+        let mut runs: Vec<(String, &'static str, String, String, Scenario)> = vec![];
+        for (rname, row) in &reasons {
+            for v in 0..names.len() {
+                let text = vary(&row.text(), v);
+                for (mname, args) in &modes {
+                    let mut sc = row.scenario(args);
+                    for f in sc.files.iter_mut() {
+                        if f.0 == row.target() { f.1 = text.clone(); }
+                    }
+                    // the backup file, if any is written, shows up here
+                    sc.files.push((format!("{}.bk", row.target().trim_end_matches(".rs")), String::new()));
+                    runs.push((format!("{}:{}:{}", rname, if row.is_main { "main" } else { "child" }, names[v]), row.target(), text.clone(), mname.to_string(), sc));
+                }
+            }
+        }
+        let ridx: Vec<usize> = (0..runs.len()).collect();
+        let rran: Vec<Ran> = par_map(&ridx, |k| run_scenario(&root, 150000 + *k, &runs[*k].4));
+        for ((what, target, text, mode, sc), r) in runs.iter().zip(rran.iter()) {
+            if r.timed_out { o.count("file:timeout"); continue; }
+            let after = r.files_after.iter().find(|(n, _)| n == target).and_then(|(_, t)| t.clone()).unwrap_or_default();
+            let bk = r.files_after.iter().find(|(n, _)| n.ends_with(".bk")).and_then(|(_, t)| t.clone()).unwrap_or_default();
+            let mut problems = vec![];
+            if &after != text { problems.push("the opted-out file's bytes changed".to_string()); }
+            if !bk.is_empty() { problems.push("a backup of the opted-out file was written".to_string()); }
+            if r.code != Some(0) { problems.push(format!("exit {:?}", r.code)); }
+            match mode.as_str() {
+                "check" | "check-l" => if !r.stdout.trim().is_empty() { problems.push("--check printed something".to_string()); },
+                "json" => if r.stdout.trim() != "[]" { problems.push("the json report is not []".to_string()); },
+                "checkstyle" => if r.stdout.contains("bad_") { problems.push("the checkstyle report has an error inside the opted-out file".to_string()); },
+                "stdout" => if r.stdout.contains("bad_") { problems.push("--emit stdout printed the opted-out file".to_string()); },
+                _ => {}
+            }
+            o.direct_evals += 1;
+            o.direct_distinct += 1;
+            o.count(&format!("file:optout-bytes:{}:{}", mode, if problems.is_empty() { "clean" } else { "touched" }));
+            if !problems.is_empty() {
+                o.direct_failures.push(json!({"sig": format!("c04:opted-out-file-bytes:{}:{}", mode, what), "what": problems.join("; "), "case": what, "toml": sc.toml, "args": sc.args, "before": text, "after": after, "stdout": r.stdout, "stderr": r.stderr}));
+            }
         }
     }
     // 2. out-of-line modules: a skip attribute on the declaration (or at the top of the module's file)
@@ -2250,7 +2426,11 @@ fn part_probes(o: &mut Outcome, out: &Path) {
         let r = run_scenario(&root, 20, &Scenario { files: vec![], toml: String::new(), args: vec![], stdin: Some(input.into()) });
         let r2 = run_scenario(&root, 21, &Scenario { files: vec![], toml: "disable_all_formatting = true\n".into(), args: vec![], stdin: Some(input.into()) });
         let r3 = run_scenario(&root, 22, &Scenario { files: vec![], toml: String::new(), args: vec!["--config".into(), "newline_style=Windows".into()], stdin: Some(input.into()) });
-        o.probes.push(json!({"id": "C04-stdin-skip-crlf", "fails": r.stdout != input, "what": "standard input that opts out with #![rustfmt::skip] and has CRLF line endings is echoed with LF line endings (echo_back_stdin prints the source map's normalised text, before any newline_style handling)", "detail": {"input": input, "stdout": r.stdout, "exit": r.code, "with_disable_all_formatting_stdout_equals_input": r2.stdout == input, "with_newline_style_Windows_stdout_equals_input": r3.stdout == input}}));
+        // the same copy has lost a byte order mark
+        let input_bom = "\u{feff}#![rustfmt::skip]\nfn  f( ) { }\n";
+        let rb = run_scenario(&root, 23, &Scenario { files: vec![], toml: String::new(), args: vec![], stdin: Some(input_bom.into()) });
+        let rb2 = run_scenario(&root, 24, &Scenario { files: vec![], toml: "disable_all_formatting = true\n".into(), args: vec![], stdin: Some(input_bom.into()) });
+        o.probes.push(json!({"id": "C04-stdin-skip-crlf", "fails": r.stdout != input || rb.stdout != input_bom, "what": "standard input that opts out with #![rustfmt::skip] and has CRLF line endings is echoed with LF line endings, and one that starts with a byte order mark is echoed without it (echo_back_stdin prints the source map's normalised text, before any newline_style handling)", "detail": {"input": input, "stdout": r.stdout, "exit": r.code, "with_disable_all_formatting_stdout_equals_input": r2.stdout == input, "with_newline_style_Windows_stdout_equals_input": r3.stdout == input, "bom_input_echoed_with_its_bom": rb.stdout == input_bom, "bom_input_with_disable_all_formatting_echoed_with_its_bom": rb2.stdout == input_bom}}));
     }
     // a skipped node in a file with CRLF line endings under the default newline_style (consequence of
     // F5 / C08: Auto looks at the normalised text, so the whole file, the verbatim copy included, gets LF)
